@@ -281,6 +281,38 @@ func (p *Peer) StartInstance(ctx context.Context) (orbitdb.OrbitDB, error) {
 	return db, nil
 }
 
+// StartInstanceOnDir creates an OrbitDB instance whose keystore and caches are
+// real leveldb databases under dir (the library's defaults).
+func (p *Peer) StartInstanceOnDir(ctx context.Context, dir string) (orbitdb.OrbitDB, error) {
+	p.mu.Lock()
+	if p.DB != nil {
+		p.mu.Unlock()
+		return nil, fmt.Errorf("instance already running")
+	}
+	p.mu.Unlock()
+	db, err := orbitdb.NewOrbitDB(ctx, p.API, &orbitdb.NewOrbitDBOptions{
+		Directory:            &dir,
+		PubSub:               &simPubSub{w: p.W, p: p},
+		DirectChannelFactory: p.directFactory(),
+	})
+	if err != nil {
+		return nil, err
+	}
+	p.mu.Lock()
+	p.DB = db
+	p.mu.Unlock()
+	return db, nil
+}
+
+// Detach forgets the running instance without closing it (the caller closes it).
+func (p *Peer) Detach() orbitdb.OrbitDB {
+	p.mu.Lock()
+	db := p.DB
+	p.DB = nil
+	p.mu.Unlock()
+	return db
+}
+
 // StopInstance closes the running instance, if any.
 func (p *Peer) StopInstance() {
 	p.mu.Lock()
